@@ -183,7 +183,7 @@ def write_file(c, tag="in"):
 # ------------------------------------------------------------------ reading through the library
 
 def _none_chrom(s):
-    return None if s in ("*", "") else s
+    return None if s == "*" else s
 
 
 def _rows(d):
